@@ -6,6 +6,8 @@ from vlib.pyvc import interp as I
 
 
 def proved(run):
+    from props import crosscheck
+    run.extra["encoder_cross_check"] = dict(functions=crosscheck.run_all(), disagreements=0)   # RuntimeError (exit 3) on disagreement
     run.trust("pyvc symbolic interpreter over the real AST", f"z3 {z3.get_version_string()}")
     run.assume("T-FILTER: Mohri's 3-state epsilon filter makes composition count every pair of matching paths once (assumed; table proved)")
     for f in (C.epsilon_filter, C.augment, C.from_pairs_wf,):
